@@ -469,8 +469,11 @@ func runHist(p histParams, hist []string, withDrain bool) *histRun {
 		if p.Tx {
 			w.oracleFlags(false)
 		}
-		if p.BlockFetch {
+		if p.BlockFetch && !p.Adversarial {
 			w.oracleBlockFetch()
+		}
+		if p.BlockFetch {
+			w.oracleWindowRequested()
 		}
 	}
 	w.PanicViolations(p.Prop)
